@@ -26,9 +26,9 @@ TECHNIQUE = ("model-based testing of operation histories on a fresh POXCore: all
              "fixed pool + Hypothesis-drawn histories, real core run single-threaded under a virtual clock in lock-step with an "
              "independent rendezvous/lifecycle monitor")
 LEVEL_TEXT = ("Exploration by generated histories: every ordered selection of up to 4 (quick) / 5 (thorough) distinct operations "
-              "from a pool of 15 (registrations in both naming forms, declarations with plain / registering / failing callbacks, "
+              "from a pool of 16 (registrations in both naming forms and of an object whose truth value is False, declarations with plain / registering / failing callbacks, "
               "listen_to_dependencies, GoingUp listeners that hold or immediately release a deferral, goUp, release, a second "
-              "release of an already released deferral, quit) is run "
+              "release of an already released deferral, quit, a GoingDown listener that calls quit again from inside the delivery) is run "
               "on a fresh POXCore, plus Hypothesis-drawn histories with nested operations inside callbacks and GoingUp handlers; "
               "each is judged by a monitor restating the property (exactly once, never early by the registry contents at call "
               "time, fired by the time the completing call returns, listener wiring counted by raising every component event, "
@@ -48,17 +48,19 @@ ASSUMPTIONS = [
   "quit() before goUp takes effect when its worker next runs after goUp has begun; the worker is run between history operations",
   "a deferral may be released again after it has been released (immediately, later, inside GoingUp delivery, after Up): being refused with RuntimeError and being silently ignored are both accepted, only the lifecycle afterwards is judged",
   "goUp is called at most once; GoingUp handlers do not raise",
+  "registered components are arbitrary objects, including ones whose truth value is False (empty table-like objects)",
+  "quit() may be called again from inside a GoingDown or Down handler (same thread); it must not start a second shutdown",
   "the order of UpEvent relative to GoingDownEvent/DownEvent (quit while a deferral is outstanding) is not judged",
 ]
 EXHAUSTIVE_SCOPE = {
-  "quick": "all ordered selections without repetition of 1..4 operations from the fixed 15-operation pool (35 715 histories)",
-  "thorough": "all ordered selections without repetition of 1..5 operations from the fixed 15-operation pool (396 075 histories)",
+  "quick": "all ordered selections without repetition of 1..4 operations from the fixed 16-operation pool (47 296 histories)",
+  "thorough": "all ordered selections without repetition of 1..5 operations from the fixed 16-operation pool (571 456 histories)",
 }
 
 NAMES = ["a", "b", "c", "x", "x_y"]
 EVS = ["EvP", "EvQ"]
 COMP_EVENTS = {"a": [0, 1], "b": [0], "c": None, "x": [1], "x_y": [0, 1]}
-REG_HOW = ["name", "new", "single", "corename_new", "corename_single"]
+REG_HOW = ["name", "new", "single", "corename_new", "corename_single", "falsy", "falsy_new"]
 CWR_FORMS = ["list", "tuple", "set", "str"]
 ARG_MODES = ["id", "none", "kw"]
 ATTR_MODES = ["attrs", "short", "none"]
@@ -125,17 +127,20 @@ def setup():
   if U.makePinger is not world.FakePinger:
     raise HarnessError("fake pinger not installed")
   evcls = [type(n, (RE.Event,), {}) for n in EVS]
-  comp, alt = {}, {}
+  comp, alt, falsy = {}, {}, {}
   for n in NAMES:
     evs = COMP_EVENTS[n]
     if evs is None:
       comp[n] = type(n, (object,), {})
       alt[n] = type("Alt_" + n, (object,), {"_core_name": n})
+      falsy[n] = type(n, (object,), {"__bool__": lambda self: False})
     else:
       decl = set(evcls[i] for i in evs)
       comp[n] = type(n, (RE.EventMixin,), {"_eventMixin_events": decl})
       alt[n] = type("Alt_" + n, (RE.EventMixin,), {"_eventMixin_events": decl, "_core_name": n})
-  _P = {"PC": PC, "RP": RP, "R": R, "RE": RE, "evcls": evcls, "comp": comp, "alt": alt}
+      # a table-like component that happens to be empty: a real object whose truth value is False
+      falsy[n] = type(n, (RE.EventMixin,), {"_eventMixin_events": decl, "__len__": lambda self: 0})
+  _P = {"PC": PC, "RP": RP, "R": R, "RE": RE, "evcls": evcls, "comp": comp, "alt": alt, "falsy": falsy}
   gc.collect()
   gc.freeze()
 
@@ -162,6 +167,7 @@ class RT(object):
     self.met_counts = {}
     self.nomet_declared = set()
     self.goup_called = False
+    self.down_quits = 0
     self.cb_stack = []
     self.core = None
     self.waiters = case.get("waiters", [])
@@ -469,6 +475,8 @@ class RT(object):
       raise HarnessError("operation %r is not available inside callbacks" % (k,))
     elif k == "gup":
       self.op_gup(op)
+    elif k == "gdl":
+      self.op_gdl(op)
     elif k == "goup":
       self.op_goup()
     elif k == "quit":
@@ -522,6 +530,16 @@ class RT(object):
         self.objs.append((name, None))
         self.mon.register(call, name, tok)
         obj = core.registerNew(P["alt"][name])
+        self.objs[tok] = (name, obj)
+      elif how == "falsy":
+        obj = P["falsy"][name]()
+        self.objs.append((name, obj))
+        self.mon.register(call, name, tok)
+        core.register(name, obj)
+      elif how == "falsy_new":
+        self.objs.append((name, None))
+        self.mon.register(call, name, tok)
+        obj = core.registerNew(P["falsy"][name])
         self.objs[tok] = (name, obj)
       elif how == "corename_single":
         obj = P["alt"][name]()
@@ -663,6 +681,31 @@ class RT(object):
     self.flag("goingup-listener")
     if self.goup_called:
       self.flag("goingup-listener-after-goup")
+
+  def op_gdl(self, op):
+    """Subscribe a GoingDown (ev 0) or Down (ev 1) listener that calls core.quit() from inside the
+    delivery, the first time it runs."""
+    PC = self.P["PC"]
+    ev = op.get("ev", 0) % 2
+    state = {"done": False}
+
+    def h(event):
+      if state["done"]:
+        return
+      state["done"] = True
+      try:
+        self.flag("quit-from-inside-%s-delivery" % ("GoingDown" if ev == 0 else "Down"))
+        self.mon.quit_attempt()
+        n = len(self.pending)
+        self._call_quit(self.core.quit)
+        if len(self.pending) != n:
+          self.flag("quit-after-goup-used-a-thread")
+        self.sync()
+      except BaseException:
+        self._guard()
+        raise
+    self.core.addListener(PC.GoingDownEvent if ev == 0 else PC.DownEvent, h, priority=op.get("p", 0))
+    self.flag("goingdown-listener" if ev == 0 else "down-listener")
 
   def op_goup(self):
     if self.goup_called:
@@ -848,14 +891,15 @@ def _pool_case(seq):
     {"op": "goup"},
     {"op": "quit"},
     {"op": "rel", "k": 0},
-    {"op": "reg", "n": A, "how": "single"},
+    {"op": "reg", "n": A, "how": "falsy"},
     {"op": "cwr", "w": 3, "deps": [], "form": "set", "arg": "id"},
     {"op": "rel2", "k": 0},
+    {"op": "gdl", "ev": 0, "p": 0},
   ]
   return {"waiters": waiters, "sinks": sinks, "gups": gups, "ops": [pool[i] for i in seq]}
 
 
-POOL_SIZE = 15
+POOL_SIZE = 16
 
 
 def _enum(maxlen):
@@ -871,7 +915,7 @@ def _s_ops(kind):
   name = st.integers(0, 4)
   some = st.lists(st.sampled_from([0, 0, 0, 1, 1, 1, 2, 3, 4, -1]), min_size=1, max_size=3)
   deps = some
-  reg = st.fixed_dictionaries({"op": st.just("reg"), "n": st.sampled_from([0, 0, 0, 1, 1, 1, 2, 3, 4]), "how": st.sampled_from(REG_HOW[:2] * 2 + REG_HOW)})
+  reg = st.fixed_dictionaries({"op": st.just("reg"), "n": st.sampled_from([0, 0, 0, 1, 1, 1, 2, 3, 4]), "how": st.sampled_from(REG_HOW[:2] * 2 + REG_HOW + ["falsy"])})
   cwr = st.fixed_dictionaries({"op": st.just("cwr"), "w": st.integers(0, 4), "deps": deps,
                                "form": st.sampled_from(["list", "list", "set", "set", "str", "tuple"]),
                                "arg": st.sampled_from(["id", "kw", "none", "none"])})
@@ -885,13 +929,14 @@ def _s_ops(kind):
   if kind == "nested":
     return st.one_of(reg, reg, reg, reg, cwr, cwr, rel, rel, ltd, ltd, cwr0, rel2)
   gup = st.fixed_dictionaries({"op": st.just("gup"), "g": st.integers(0, 2), "p": st.sampled_from([0, 0, 5, -3])})
+  gdl = st.fixed_dictionaries({"op": st.just("gdl"), "ev": st.integers(0, 1), "p": st.sampled_from([0, 0, 5, -3])})
   goup = st.just({"op": "goup"})
   quit_ = st.just({"op": "quit"})
   if kind == "pre":
-    return st.one_of(reg, reg, reg, reg, cwr, cwr, cwr, cwr, ltd, ltd, ltd, gup, gup, gup, quit_, cwr0)
+    return st.one_of(reg, reg, reg, reg, cwr, cwr, cwr, cwr, ltd, ltd, ltd, gup, gup, gup, quit_, cwr0, gdl)
   if kind == "post":
-    return st.one_of(rel, rel, rel, rel, reg, reg, reg, reg, cwr, cwr, cwr, ltd, ltd, quit_, cwr0, rel2, rel2)
-  return st.one_of(reg, reg, reg, reg, cwr, cwr, cwr, cwr, ltd, ltd, gup, gup, goup, goup, rel, rel, quit_, cwr0, rel2)
+    return st.one_of(rel, rel, rel, rel, reg, reg, reg, reg, cwr, cwr, cwr, ltd, ltd, quit_, quit_, cwr0, rel2, rel2, gdl)
+  return st.one_of(reg, reg, reg, reg, cwr, cwr, cwr, cwr, ltd, ltd, gup, gup, goup, goup, rel, rel, quit_, quit_, cwr0, rel2, gdl)
 
 
 def _strategy(tier):
